@@ -7,8 +7,8 @@ class Driver(ChanDriver):
     PID = 'C14'
     PROP = 'c14_ok'
     PROFILES = [('consume', 150, 2000)]
-    CONC = [('tags', concdrv.gen_tags, 'conc_tags_ok', 40, 600),
-            ('consume_add', concdrv.gen_consume_add, 'conc_dispatch_ok', 30, 400)]
+    CONC = [('tags', concdrv.gen_tags, 'conc_tags_ok', 100, 1000),
+            ('consume_add', concdrv.gen_consume_add, 'conc_dispatch_ok', 80, 800)]
     RULE = ("scenarios from the profiles ['consume'] of harness/changen.py: sequences of "
             'application operations on 1-3 channels, each with a script of '
             'inbound frame batches (replies, deliveries, returns, cancels, '
